@@ -1129,6 +1129,7 @@ struct Ref
     std::set<std::string> dirs;                // directories the fault-free run creates
     std::vector<TraceEntry> trace;
     std::string why;
+    bool missing = false; // exit 0 but a header the schema asks for was not written
 };
 std::map<std::string, Ref> g_ref;
 
@@ -1145,6 +1146,65 @@ std::vector<std::string> base_args(const std::string& schema, long outv)
 }
 
 std::vector<std::string> argv_variant(long v, const std::string& schema, long outv);
+
+// The headers a schema asks for, read off its text independently of sbeppc: one per
+// top-level encoding under <types> and one per <message> (only the main file is scanned, so
+// the list is a subset of what must exist - sound). Returns (subdir, name) pairs.
+std::vector<std::pair<std::string, std::string>> expected_headers(const std::string& xml)
+{
+    std::vector<std::pair<std::string, std::string>> out;
+    std::vector<std::string> stack;
+    size_t i = 0;
+    auto local = [](std::string s) {
+        size_t c = s.find(':');
+        return c == std::string::npos ? s : s.substr(c + 1);
+    };
+    while((i = xml.find('<', i)) != std::string::npos)
+    {
+        if(xml.compare(i, 4, "<!--") == 0)
+        {
+            size_t e = xml.find("-->", i);
+            if(e == std::string::npos) break;
+            i = e + 3;
+            continue;
+        }
+        if(xml.compare(i, 2, "<?") == 0 || xml.compare(i, 2, "<!") == 0)
+        {
+            size_t e = xml.find('>', i);
+            if(e == std::string::npos) break;
+            i = e + 1;
+            continue;
+        }
+        size_t e = xml.find('>', i);
+        if(e == std::string::npos) break;
+        std::string tag = xml.substr(i + 1, e - i - 1);
+        i = e + 1;
+        if(tag.empty()) continue;
+        if(tag[0] == '/')
+        {
+            if(!stack.empty()) stack.pop_back();
+            continue;
+        }
+        const bool selfclose = tag.back() == '/';
+        size_t ne = tag.find_first_of(" \t\r\n/");
+        std::string el = local(tag.substr(0, ne));
+        std::string name;
+        size_t np = tag.find(" name=\"");
+        if(np != std::string::npos)
+        {
+            size_t q = tag.find('"', np + 7);
+            if(q != std::string::npos) name = tag.substr(np + 7, q - np - 7);
+        }
+        const std::string parent = stack.empty() ? "" : stack.back();
+        if(!name.empty())
+        {
+            if(parent == "types" && (el == "type" || el == "composite" || el == "enum" || el == "set")) out.push_back({"types", name});
+            if(parent == "messageSchema" && el == "message") out.push_back({"messages", name});
+        }
+        if(!selfclose) stack.push_back(el);
+    }
+    return out;
+}
 
 const Ref& reference(const std::string& schema, long outv, long argv_v = 0)
 {
@@ -1185,6 +1245,32 @@ const Ref& reference(const std::string& schema, long outv, long argv_v = 0)
     }
     perturb_heap(0);
     r.files = first;
+    if(r.ok)
+    {
+        // exit 0 in a fresh directory: every header the schema asks for must be among the files
+        // (sbeppc may append `_` to a name that is a C++ keyword)
+        for(auto& ex : expected_headers(g_corpus.files[schema]))
+        {
+            bool found = false;
+            for(auto& kv : first)
+            {
+                const std::string a = "/" + ex.first + "/" + ex.second + ".hpp", b = "/" + ex.first + "/" + ex.second + "_.hpp";
+                auto ends = [&](const std::string& suf) { return kv.first.size() >= suf.size() && kv.first.compare(kv.first.size() - suf.size(), suf.size(), suf) == 0; };
+                if(ends(a) || ends(b))
+                {
+                    found = true;
+                    break;
+                }
+            }
+            if(!found)
+            {
+                r.ok = false;
+                r.missing = true;
+                r.why = "fault-free run exited 0 but wrote no " + ex.first + "/" + ex.second + ".hpp although the schema defines it";
+                break;
+            }
+        }
+    }
     g.fs = saved;
     return g_ref[key] = r;
 }
@@ -1735,8 +1821,13 @@ Result exec_plan(const Plan& plan)
                     g.fs[*i] = dn;
                 }
                 Node fnode;
-                switch(how % 7)
+                switch(how % 8)
                 {
+                case 7:
+                    // an older revision's file of exactly the same size but different content
+                    fnode.data = kv.second;
+                    if(!fnode.data.empty()) fnode.data[(size_t)r.below(fnode.data.size())] ^= 0x20;
+                    break;
                 case 5:
                     // a directory sits where a generated header must go (only sometimes)
                     if(r.chance(1, 6))
@@ -1763,7 +1854,7 @@ Result exec_plan(const Plan& plan)
                 }
                 g.fs[kv.first] = fnode;
             }
-            if(how % 7 == 6 && !ref.files.empty())
+            if(how % 8 == 6 && !ref.files.empty())
             {
                 // replace one directory of the tree (with everything below it) by a regular file
                 std::vector<std::string> dirs;
@@ -1805,6 +1896,8 @@ Result exec_plan(const Plan& plan)
                 {
                     if(ref->why.find("different files") != std::string::npos)
                         fail("nondeterministic-output", ref->why + " (" + schema + ")");
+                    else if(ref->missing)
+                        fail("exit0-file-missing", ref->why + " (" + schema + ")");
                     else
                     {
                         res.signature = "HARNESS:no-reference";
@@ -1992,7 +2085,13 @@ std::vector<std::string> tier_schemas(const std::string& tier, const std::string
     install_handlers();
     std::vector<std::string> out;
     for(auto& n : g_corpus.names)
-        if(reference(n, 0).ok) out.push_back(n); // e.g. traits_test_schema2.xml needs --schema-name
+    {
+        // only a schema whose plain command line is rejected is left out (e.g. traits_test_schema2.xml
+        // needs --schema-name); one whose fault-free run exits 0 with unstable or missing files stays in
+        // and is reported by the `run` op
+        const Ref& r = reference(n, 0);
+        if(r.ok || r.missing || r.why.find("different files") != std::string::npos) out.push_back(n);
+    }
     return out;
 }
 
@@ -2016,7 +2115,12 @@ const std::vector<EnumPoint>& enumeration(const std::string& tier)
     for(auto& s : tier_schemas(tier, "C20"))
     {
         const Ref& ref = reference(s, 0);
-        if(!ref.ok) continue;
+        if(!ref.ok)
+        {
+            // not enumerable, but must still be run once so that the reason is reported
+            pts.push_back({s, K_STAT, 1000000, "EACCES", 0});
+            continue;
+        }
         long cnt[K_N] = {0};
         for(auto& t : ref.trace)
         {
@@ -2115,7 +2219,7 @@ Plan gen_c20(u64 seed, const std::string& tier)
             Op pf;
             pf.name = "prefill";
             pf.s = {wl.chance(1, 2) ? s : schemas[wl.below(schemas.size())]};
-            pf.a = {outv, (long)wl.below(7), (long)wl.below(1000)};
+            pf.a = {outv, (long)wl.below(8), (long)wl.below(1000)};
             p.ops.push_back(pf);
         }
         const bool last = i + 1 == nruns;
